@@ -93,7 +93,7 @@ pub fn worker_main(prop: &str, tier: Tier, seed: u64, k: u64, n: u64, runs: u64,
     let mut lo = start;
     while lo < total {
         let hi = (lo + chunk).min(total);
-        let res = engine::sweep_indices(hi, 1e9, &known, (k, n), 1, Some(&cb), |i, stats| {
+        let res = engine::sweep_indices_from(lo, hi, 1e9, &known, (k, n), 1, Some(&cb), |i, stats| {
             if i < lo || skipset.contains(&i) {
                 return (Scenario::solo(crate::desc::Config::default_for(0), crate::desc::Entropy::Rand(0)), vec![]);
             }
@@ -392,6 +392,13 @@ pub fn sweep_procs(prop: &'static str, tier: Tier, seed: u64, runs: u64, wall_ca
                 if since.elapsed() > hang_budget {
                     let _ = w.child.kill();
                     let _ = w.child.wait();
+                    if fatal {
+                        // the sweep already has its violation and ends after this pass: further
+                        // stalled workers are not confirmed one by one (a watchdog budget each)
+                        stats.bump("watchdog.kills_after_the_first_confirmed_violation");
+                        *slot = None;
+                        continue;
+                    }
                     // confirm in a fresh process before calling it a hang
                     let sc = scenario_of(i);
                     let vs = exec_isolated(prop, &sc, hang_budget);
